@@ -67,6 +67,9 @@ fn case_with(t: &mut Tape, st: &mut Stats, max_stmts: usize) -> Verdict {
     if file_mode {
         st.class("file-mode");
     }
+    if rendered.rs.exit_on_error_other_spelling {
+        st.class("exit_on_error-state-spelled-other-than-true-false");
+    }
     if m.classes.contains("direct-recursion") || m.max_depth_seen >= 1 {
         st.class("error-with-function-calls-around");
     }
@@ -167,12 +170,15 @@ fn case_included(t: &mut Tape, st: &mut Stats) -> Verdict {
     let _ = std::fs::create_dir_all(&dir);
     let main_path = format!("{}/main.ds", dir);
     let lib_path = format!("{}/lib.ds", dir);
-    let rendered = render_split(&p, t, true, "!include_files ./lib.ds");
+    // the including script is a file, or a text (no source of its own) that names the library by its full path
+    let text_mode = t.chance(1, 2);
+    let rendered = if text_mode { render_split(&p, t, true, &format!("!include_files {}", lib_path)) } else { render_split(&p, t, true, "!include_files ./lib.ds") };
+    let main_source = if text_mode { String::new() } else { main_path.clone() };
     let mut m = Model::new(&p, 3000);
     m.line_of = rendered.line_of.clone();
-    m.script_source = main_path.clone();
+    m.script_source = main_source.clone();
     for (id, f) in &rendered.file_of {
-        m.source_of.insert(*id, if *f == 1 { lib_path.clone() } else { main_path.clone() });
+        m.source_of.insert(*id, if *f == 1 { lib_path.clone() } else { main_source.clone() });
     }
     m.lib_messages = lib_messages();
     let fatal = match m.run() {
@@ -192,11 +198,18 @@ fn case_included(t: &mut Tape, st: &mut Stats) -> Verdict {
     if in_main {
         st.class("error-in-including-file-after-directive");
     }
+    if text_mode && in_lib && in_main {
+        // an error without a source after one with a source
+        let firsts: Vec<bool> = m.failures.iter().map(|id| rendered.file_of.get(id) == Some(&1)).collect();
+        if firsts.windows(2).any(|w| w[0] && !w[1]) {
+            st.class("error-in-text-after-error-in-included-file");
+        }
+    }
     std::fs::write(&main_path, &rendered.main).expect("write");
     std::fs::write(&lib_path, &rendered.lib).expect("write");
     hz_reset();
     let fuel = (30 * m.steps as u64 + 3_000).min(80_000);
-    let out = run_file(&main_path, sdk_context(), fuel, None);
+    let out = if text_mode { run_text(&rendered.main, sdk_context(), fuel, None) } else { run_file(&main_path, sdk_context(), fuel, None) };
     let _ = std::fs::remove_dir_all(&dir);
     let names: HashMap<String, String> = with_hz(|h| {
         let mut names = HashMap::new();
@@ -241,8 +254,10 @@ fn case_included(t: &mut Tape, st: &mut Stats) -> Verdict {
         (Ok(_), None) => {}
         (Err(ScriptError::Runtime(_, Some(meta))), Some(id)) => {
             let line = rendered.line_of.get(&id).copied();
-            let want_src = if rendered.file_of.get(&id) == Some(&1) { lib_c.clone() } else { main_path.clone() };
-            if meta.line != line || meta.source.as_ref().map(canon) != Some(canon(&want_src)) {
+            let in_lib = rendered.file_of.get(&id) == Some(&1);
+            let want_src = if in_lib { lib_c.clone() } else { main_source.clone() };
+            let src_ok = if !in_lib && text_mode { meta.source.is_none() } else { meta.source.as_ref().map(canon) == Some(canon(&want_src)) };
+            if meta.line != line || !src_ok {
                 return fail("C10/included/fatal-error-position", detail("failure position differs", json!({"model": [line, want_src], "actual": [meta.line, meta.source]})));
             }
         }
@@ -267,7 +282,7 @@ fn case_t(t: &mut Tape, st: &mut Stats) -> Verdict {
 pub fn property() -> Property {
     Property {
         id: "C10",
-        rule: "C04/C05 programs with failing commands planted at arbitrary statement positions (top level, function bodies, loop bodies, branches): trigger_error with plain and syntax-bearing messages (${..}, %, #) and library commands that fail on their own (array_get / array_pop / array_length on a missing handle, substring out of range, map_get and calc without arguments, the script-implemented array_join), with and without output variable, several in sequence, exit_on_error toggled mid-script, run from text and from file. Each failing line is followed by get_last_error / get_last_error_line / get_last_error_source reads and an emit. Oracle: reference interpreter (output variable 'false', latest error's message/line/source, continue with the next instruction; once exit_on_error is on the first error ends the run with Err(message, line, source)); library messages are taken from a direct call of the same command. Non-trivial: >= 2 errors or an error with function calls around; distinct by (script, mode)",
+        rule: "C04/C05 programs with failing commands planted at arbitrary statement positions (top level, function bodies, loop bodies, branches): trigger_error with plain and syntax-bearing messages (${..}, %, #) and library commands that fail on their own (array_get / array_pop / array_length on a missing handle, substring out of range, map_get and calc without arguments, the script-implemented array_join), with and without output variable, several in sequence, exit_on_error toggled mid-script (the state written as any truthy / falsy spelling), run from text and from file; (included) the same programs with the function definitions in an included file, the including script being a file or a text without a source of its own. Each failing line is followed by get_last_error / get_last_error_line / get_last_error_source reads and an emit. Oracle: reference interpreter (output variable 'false', latest error's message/line/source, continue with the next instruction; once exit_on_error is on the first error ends the run with Err(message, line, source)); library messages are taken from a direct call of the same command. Non-trivial: >= 2 errors or an error with function calls around; distinct by (script, mode)",
         assumptions: &[
             "failing commands are not planted in condition position, and programs that reach one inside a function called in condition position are discarded",
             "expected message of a library error = the message of a direct call of the same command on a fresh context",
@@ -280,7 +295,7 @@ pub fn property() -> Property {
                     Tier::Thorough => Plan::Random { cases: 3_000_000, max_len: 900 },
                 },
                 case: case_q,
-                min_classes: &[("several-errors-in-sequence", 3000), ("exit_on_error-fatal", 1000), ("file-mode", 2000), ("error-with-function-calls-around", 3000)],
+                min_classes: &[("several-errors-in-sequence", 3000), ("exit_on_error-fatal", 1000), ("file-mode", 2000), ("error-with-function-calls-around", 3000), ("exit_on_error-state-spelled-other-than-true-false", 3000)],
             },
             Section {
                 name: "included",
@@ -289,7 +304,7 @@ pub fn property() -> Property {
                     Tier::Thorough => Plan::Random { cases: 800_000, max_len: 900 },
                 },
                 case: case_included,
-                min_classes: &[("error-inside-included-file", 1000), ("error-in-including-file-after-directive", 1000)],
+                min_classes: &[("error-inside-included-file", 1000), ("error-in-including-file-after-directive", 1000), ("error-in-text-after-error-in-included-file", 100)],
             },
             Section {
                 name: "large-programs",
